@@ -6,7 +6,7 @@ Import ListNotations.
 
 Definition opt_body (o : option bytes) : bytes := match o with Some b => b | None => [] end.
 Definition ct_of (hs : list field) : bytes := get_default hs K_CT [].
-Definition postlike (rq : request) : bool := existsb (bytes_eqb (rq_method rq)) post_methods.
+Definition postlike (rq : request) : bool := existsb (bytes_eqb (method_of rq)) post_methods.
 
 Section Roundtrip.
   Variable L : lib.
@@ -47,7 +47,7 @@ Section Roundtrip.
     (* complement of non-utf8-header-import-fails *)
     /\ headers_ok (rq_headers rq) /\ headers_ok (rs_headers r)
     (* complement of connect-url-changed, url-rejected-import-fails, url-normalised-by-importer, host-header-rewritten *)
-    /\ bytes_eqb (rq_method rq) connect_method = false
+    /\ bytes_eqb (method_of rq) connect_method = false
     /\ (exists hp, l_url_set L (rq_pretty_url rq) = Ok (hp, rq_pretty_url rq)
                    /\ (contains (rq_headers rq) K_HOST = false \/ setitem (rq_headers rq) K_HOST hp = rq_headers rq))
     (* complement of request-content-encoding-dropped, missing-request-body-import-fails, request-body-*,
@@ -63,7 +63,7 @@ Section Roundtrip.
 
   (* the conclusion: the fields the property lists *)
   Definition same_exchange (rq : request) (r : response) (i : iflow) : Prop :=
-    i_method i = rq_method rq /\ i_url i = rq_pretty_url rq /\ i_version i = rq_version rq
+    i_method i = method_of rq /\ i_url i = rq_pretty_url rq /\ i_version i = rq_version rq
     /\ others K_CL (i_rh i) = others K_CL (rq_headers rq)
     /\ (postlike rq = true -> i_rraw i = rq_raw rq)
     /\ i_status i = rs_status r /\ i_sversion i = rs_version r /\ i_sh i = rs_headers r
@@ -140,7 +140,7 @@ Section Roundtrip.
   Qed.
 
   (* ---------------------------------------------------------------- one flow *)
-  Lemma is_postlike_dec rq : postlike rq = existsb (bytes_eqb (rq_method rq)) post_methods.
+  Lemma is_postlike_dec rq : postlike rq = existsb (bytes_eqb (method_of rq)) post_methods.
   Proof. reflexivity. Qed.
 
   Theorem roundtrip_flow rq r : flow_ok rq r ->
@@ -163,7 +163,7 @@ Section Roundtrip.
     (* --- response side of the export *)
     assert (Hresp : exists ctext enc sraw,
                (flow_entry L rq (Some r) =
-                Ok (mkEntry (rq_method rq) (rq_pretty_url rq) (rq_version rq) (rq_headers rq) post
+                Ok (mkEntry (method_of rq) (rq_pretty_url rq) (rq_version rq) (rq_headers rq) post
                             (rs_status r) (rs_version r) (rs_headers r) (Some ctext) enc))
                /\ (if option_eqb bytes_eqb enc (Some import_b64_tag) then l_b64dec L ctext
                    else match enc with
@@ -171,7 +171,7 @@ Section Roundtrip.
                         | None => import_text (rs_headers r) ctext
                         end) = Ok (VB sraw)
                /\ sraw = opt_body (rs_raw r)).
-    { assert (Hreqpart : (if existsb (bytes_eqb (rq_method rq)) post_methods
+    { assert (Hreqpart : (if existsb (bytes_eqb (method_of rq)) post_methods
                           then t <- get_text L (rq_headers rq) (rq_raw rq);;
                                match t with
                                | None => Ok (Some None)
